@@ -64,8 +64,9 @@ def run(ctx):
                 region.append([a, z, rnd.choice([1, 1, 2])])
                 wa = rnd.randint(0, ext - 1)
                 window.append([wa, rnd.randint(1, ext - wa)])
+            # which of the two attributes this step assigns, and in which order; the other one keeps its value
             steps.append({"coeffs": cspec, "origin": None if o is None else [o.numerator, o.denominator],
-                          "region": region, "window": window})
+                          "order": rnd.choice(["co", "oc", "c", "o", "c", "o"]), "region": region, "window": window})
         cases.append({"dtype": dt, "shape": shape, "raw": raw, "steps": steps})
     impl = ctx.run_impl("impl_calib.py", {"cases": cases}, timeout=3000)
     import numpy as np
@@ -73,9 +74,23 @@ def run(ctx):
     for c, r in zip(cases, impl):
         rawq = [[Fraction(x).numerator, Fraction(x).denominator] for x in c["raw"]]
         arr = np.arange(len(c["raw"])).reshape(c["shape"])
+        cur_c, cur_o, hist = None, None, []
         for stp, got in zip(c["steps"], r["steps"]):
-            inp = {"dtype": c["dtype"], "shape": c["shape"], "raw": c["raw"], "coeffs": stp["coeffs"], "origin": stp["origin"],
-                   "region": stp["region"], "window": stp["window"]}
+            # the calibration in force after this step: an attribute that is not assigned keeps its value
+            if "c" in stp["order"]:
+                cur_c = stp["coeffs"]
+            if "o" in stp["order"]:
+                cur_o = stp["origin"]
+            hist.append([stp["order"], stp["coeffs"], stp["origin"]])
+            stp = dict(stp, coeffs=cur_c, origin=cur_o)
+            inp = {"dtype": c["dtype"], "shape": c["shape"], "raw": c["raw"], "assignments": list(hist), "coeffs": stp["coeffs"],
+                   "origin": stp["origin"], "region": stp["region"], "window": stp["window"]}
+            if "error" not in got:
+                want_c = [list(x) for x in (cur_c or [])]
+                if [list(x) for x in got["read_coeffs"]] != want_c or got["read_origin"] != (None if cur_o is None else list(cur_o)):
+                    failures.append(("assigning one calibration attribute changed the other (or it does not read back)", inp,
+                                     {"coefficients": got["read_coeffs"], "origin": got["read_origin"]}))
+                    continue
             if "error" in got:
                 failures.append(("setting the calibration was refused", inp, got))
                 continue
